@@ -11,16 +11,17 @@ fn main() {
     let id = args[1].to_uppercase();
     if args[2] == "--replay" {
         let path = args.get(3).expect("replay file");
-        let text = std::fs::read_to_string(path).expect("read replay");
-        let v: serde_json::Value = serde_json::from_str(&text).expect("parse replay");
-        let r = v.get("replay").cloned().unwrap_or(v);
-        let code = match id.as_str() {
-            "C20" => props::c20::replay(&r),
-            _ => {
-                eprintln!("no replay for {id}");
-                2
+        let path = if path.starts_with('/') { path.clone() } else { format!("{VERIF_ROOT}/{path}") };
+        let text = match std::fs::read_to_string(&path) {
+            Ok(t) => t,
+            Err(e) => {
+                eprintln!("machinery error: cannot read replay {path}: {e}");
+                std::process::exit(2);
             }
         };
+        let v: serde_json::Value = serde_json::from_str(&text).expect("parse replay");
+        let r = v.get("replay").cloned().unwrap_or(v);
+        let code = props::replay(&id, &r);
         std::process::exit(code);
     }
     let tier = match args[2].as_str() {
@@ -31,9 +32,9 @@ fn main() {
             std::process::exit(2);
         }
     };
-    let report = match id.as_str() {
-        "C20" => props::c20::run(tier),
-        _ => {
+    let report = match props::run(&id, tier) {
+        Some(r) => r,
+        None => {
             eprintln!("unknown property {id}");
             std::process::exit(2);
         }
